@@ -3,7 +3,8 @@
    What is modelled: the bump allocator with frames, alignment and the ASan
    poison gap (arena_push / align_address), frame allocation with doubling
    (arena_malloc), arena_calloc, arena_realloc with its fast path
-   (arena_realloc_fast, which validates the scope before growing in place),
+   (arena_realloc_fast, which validates the scope before shrinking [c_sv] and before
+   growing in place [c_gv] - both switches are read from the source),
    arena_strndup / arena_strdup / arena_sprintf, arena_cleanup (the node lives
    in the arena), arena_scope_enter_impl, arena_scope_leave,
    arena_scope_validate (trap when s->id != a->refs), arena_free.
@@ -34,8 +35,12 @@ Record cfg := mkCfg {
   c_node : N;   (* sizeof(struct arena_cleanup) *)
   c_gap  : N;   (* a->poison_size *)
   c_fsz0 : N;   (* a->frame_size = 16 * page size *)
-  c_sv   : bool (* arena_realloc_fast calls arena_scope_validate before its "new_size <= old_size" return
-                   (false for the source as it is; true with findings/C19_outer_shrink.diff) *)
+  c_sv   : bool; (* arena_realloc_fast calls arena_scope_validate before its "new_size <= old_size" return
+                    (translator switch shrink_validated; true since /repo 4eb1227) *)
+  c_gv   : bool  (* arena_realloc_fast calls arena_scope_validate on the path that reaches "Check if this is
+                    the last allocated object", i.e. before growing in place (translator switch
+                    grow_validated; true since /repo 08bdded).  Without it growth in place through a
+                    non-innermost scope silently succeeds; the copying path still traps in arena_malloc. *)
 }.
 
 (* 2^64: size_t and uint64_t arithmetic is checked against this bound exactly
@@ -214,7 +219,7 @@ Definition realloc_fast (c : cfg) (a : arena) (s : scope) (p : loc) (old new : N
   if new <=? old then                                   (* shrinking: no change ... *)
     (if c_sv c && negb (validate a s) then Trap        (* ... validated only by the repaired source *)
      else Ok (true, a))
-  else if negb (validate a s) then Trap
+  else if c_gv c && negb (validate a s) then Trap      (* growing: validated since 08bdded *)
   else
     match a_frames a with
     | [] => Crash
@@ -434,8 +439,10 @@ Definition init (c : cfg) : option state :=
   | Some a => Some (mkState a [] O)
   end.
 
-(* how a run ended: all operations done, or stopped at operation number i *)
-Inductive ending := Done | Trapped | Exited | Crashed.
+(* how a run ended: all operations done, or stopped at operation number i.
+   [Unmodelled] is never the ending of [run]/[hrun]; it is the answer of [cut_exposed]
+   below: "from here on the model does not claim to describe arena.c". *)
+Inductive ending := Done | Trapped | Exited | Crashed | Unmodelled.
 
 Fixpoint run (c : cfg) (st : state) (ops : list op) : list event * ending * state :=
   match ops with
@@ -533,3 +540,47 @@ Fixpoint hrun (c : cfg) (st : state) (tbl : list (option loc)) (ops : list hop)
       end
     end
   end.
+
+(* ---- where the model stops being a model of arena.c ------------------------------------------
+   The frame metadata ([f_size], [f_len]) is kept apart from [mem], and memory given back to
+   malloc stays readable here.  In C struct arena_frame occupies offsets 0 .. c_hdr of its
+   chunk, and a freed chunk is gone.  The two agree as long as
+   (a) no block below c_hdr is handed out.  The "len = 0" branch of arena_scope_leave (taken
+       only after a leave of a scope that is not the innermost one, ArenaThms.leave_spec)
+       rewinds the bump pointer to 0: the next allocation IS the header, a client write into
+       it rewrites frame->ptr/size/len in C but only [mem] here; with ASan the rewind poisons
+       the header itself, so the very next arena call dies;
+   (b) no leave of a scope that is NOT the innermost one frees a frame: the scopes still open
+       may have blocks and cleanup nodes in it, which the arena reads when they are left;
+   (c) with ASan, no leave of a scope that is not the innermost one at all: frame_poison then
+       covers the blocks and cleanup nodes of the scopes still open, and the arena dies on
+       its own poisoned nodes when one of them is left.
+   [cut_exposed] cuts the model's answer at the first such event and says [Unmodelled]; the
+   harness compares nothing beyond it (and judges the implementation by the oracle alone).
+   It is the identity on well-bracketed API-respecting runs (ArenaOracle.cut_obs_id,
+   api_step_not_exposing). *)
+Definition exposes (c : cfg) (ev : event) : bool :=
+  match ev with
+  | ELeave _ true => 0 <? c_gap c            (* ASan: frame_poison covers the header *)
+  | EPtr (Some p) => snd p <? c_hdr c        (* the header itself is handed out *)
+  | _ => false
+  end.
+
+Definition nonlifo_hop (h : hop) : bool :=
+  match h with HOp (LeaveAt (S _)) => true | _ => false end.
+
+(* nfr = number of frames before the operation; an observation carries the number after it *)
+Fixpoint cut_obs (c : cfg) (nfr : N) (ops : list hop) (obs : list (event * (N * N * N)))
+  : list (event * (N * N * N)) * bool :=
+  match ops, obs with
+  | o :: ops', x :: rest =>
+      let nfr' := fst (fst (snd x)) in
+      if exposes c (fst x) || (nonlifo_hop o && ((nfr' <? nfr) || (0 <? c_gap c))) then ([x], true)
+      else let '(l, b) := cut_obs c nfr' ops' rest in (x :: l, b)
+  | _, _ => ([], false)
+  end.
+
+(* for a run from arena_alloc (one frame) *)
+Definition cut_exposed (c : cfg) (ops : list hop) (r : list (event * (N * N * N)) * ending)
+  : list (event * (N * N * N)) * ending :=
+  let '(l, b) := cut_obs c 1 ops (fst r) in (l, if b then Unmodelled else snd r).
